@@ -29,6 +29,10 @@ pub struct Case {
     pub workload: Workload,
     /// (stream 0=out 1=err, write-call index, fault)
     pub write_faults: Vec<(u8, u64, WriteFault)>,
+    /// line indexes at which a `Lines` workload is cut into separate top-level runs, each continuing on the context
+    /// the previous run returned (what the REPL and embedders that keep a context do)
+    #[serde(default)]
+    pub cuts: Vec<usize>,
 }
 
 pub const STEP_BUDGET: u64 = 20_000;
@@ -48,10 +52,11 @@ const PRELUDE: [&str; 12] = [
     "mkdir run/c07/d",
 ];
 
-const NUMBERS: [&str; 24] = [
+const NUMBERS: [&str; 28] = [
     "0", "1", "-1", "5", "2", "3.7", "abc", "", "99999999999999999999", "-0", "1e3", "\u{ff19}", "100", "-5", "7", "0x10",
     // integer boundaries (allocation-proportional uses are answered by the cap)
     "9223372036854775807", "-9223372036854775808", "18446744073709551615", "4294967296", "2147483648", "-2147483649", "65536", "255",
+    "170141183460469231731687303715884105727", "-170141183460469231731687303715884105728", "-170141183460469231731687303715884105727", "340282366920938463463374607431768211455",
 ];
 const TEXTS: [&str; 16] = ["hello", "h\u{e9}llo", "\u{6f22}\u{5b57}", "", "a b", "true", "false", "0", "%", "${v0}", "${undefined}", "x=y", "1.2.3", "{\"a\":[1,2,{\"b\":null}]}", "-", "a,b,,c"];
 const HANDLES: [&str; 9] = ["${arr}", "${arr0}", "${mp}", "${st}", "${bytes}", "${released}", "nohandle", "handle:zzzzzzzzzzzzzzzzzzzz", "${r0}"];
@@ -292,7 +297,7 @@ fn classify_budget(log: &[Event]) -> (bool, String, u64) {
 /// running out of memory by asking for it is not reported: allocation-proportional arguments are capped
 fn alloc_cap(core: &mut sim::Core, info: &sim::StartInfo) -> Option<duckscript::types::command::CommandResult> {
     if info.name == "std::random::Text" || info.name == "std::collections::Range" {
-        let too_big = |a: &String| a.parse::<i128>().map(|n| n.abs() > 100_000).unwrap_or(false);
+        let too_big = |a: &String| a.parse::<i128>().map(|n| n.unsigned_abs() > 100_000).unwrap_or(false);
         if info.args.iter().any(too_big) {
             core.probe("allocation-proportional-argument-capped");
             return Some(duckscript::types::command::CommandResult::Error("dsim: allocation-proportional argument above the cap".to_string()));
@@ -381,13 +386,41 @@ fn run_case(case: &Case, env: &WorkerEnv) -> Verdict {
     sim::decorate(&mut context.commands);
     let of: Vec<(u64, WriteFault)> = case.write_faults.iter().filter(|f| f.0 == 0).map(|f| (f.1, f.2.clone())).collect();
     let ef: Vec<(u64, WriteFault)> = case.write_faults.iter().filter(|f| f.0 == 1).map(|f| (f.1, f.2.clone())).collect();
-    let renv = Env::new(Some(Box::new(SimWriter::new("out", of))), Some(Box::new(SimWriter::new("err", ef))), None);
+    let out_w = SimWriter::new("out", of);
+    let err_w = SimWriter::new("err", ef);
+    let renv = Env::new(Some(Box::new(out_w.clone())), Some(Box::new(err_w.clone())), None);
     let result = std::panic::catch_unwind(std::panic::AssertUnwindSafe(|| match &case.workload {
         Workload::Raw(text) => runner::run_script(text, context, Some(renv)).map(|_| ()),
         Workload::Lines(lines) => {
-            let mut text = lines.join("\n");
-            text.push('\n');
-            runner::run_script(&text, context, Some(renv)).map(|_| ())
+            // consecutive runs on the returned context
+            let mut cuts: Vec<usize> = case.cuts.iter().copied().filter(|c| *c > 0 && *c < lines.len()).collect();
+            cuts.sort_unstable();
+            cuts.dedup();
+            cuts.push(lines.len());
+            let mut ctx = context;
+            let mut from = 0;
+            let mut first_env = Some(renv);
+            let mut res = Ok(());
+            for (k, to) in cuts.iter().enumerate() {
+                let mut text = lines[from..*to].join("\n");
+                text.push('\n');
+                from = *to;
+                let env_k = match first_env.take() {
+                    Some(e) => e,
+                    None => Env::new(Some(Box::new(out_w.clone())), Some(Box::new(err_w.clone())), None),
+                };
+                if k > 0 {
+                    sim::with_core(|c| c.probe("later-run-on-returned-context"));
+                }
+                match runner::run_script(&text, ctx, Some(env_k)) {
+                    Ok(c) => ctx = c,
+                    Err(e) => {
+                        res = Err(e);
+                        break;
+                    }
+                }
+            }
+            res
         }
         Workload::SelfInclude => {
             let _ = std::fs::write("run/c07/self.ds", "echo before\n!include_files self.ds\necho after\n");
@@ -471,7 +504,11 @@ impl Prop for C07 {
         } else {
             vec![]
         };
-        serde_json::to_value(Case { entropy: rng.next_u64(), workload, write_faults }).unwrap()
+        let cuts = match &workload {
+            Workload::Lines(lines) if rng.chance(1, 4) => (0..1 + rng.usize(2)).map(|_| PRELUDE.len() + rng.usize(lines.len() - PRELUDE.len() + 1)).collect(),
+            _ => vec![],
+        };
+        serde_json::to_value(Case { entropy: rng.next_u64(), workload, write_faults, cuts }).unwrap()
     }
     fn execute(&self, case: &Value, env: &WorkerEnv) -> Outcome {
         let case: Case = match serde_json::from_value(case.clone()) {
@@ -493,6 +530,11 @@ impl Prop for C07 {
             Err(_) => return vec![],
         };
         let mut out: Vec<Case> = vec![];
+        if !case.cuts.is_empty() {
+            let mut c = case.clone();
+            c.cuts.clear();
+            out.push(c);
+        }
         if !case.write_faults.is_empty() {
             let mut c = case.clone();
             c.write_faults.clear();
